@@ -412,14 +412,15 @@ shape('shape_authority_on_command', 'service/authority.rs', 'on_command', _ctxac
 # ---- the premise of the schedule model: every accessor of the shared NetDriverContext is ONE critical
 # section that waits for the lock (self.detail.lock().unwrap()...), never a try_lock that may skip
 tj = _strip_comments(src('runtime/j1939.rs'))
+_LOCK = r'\bself\.\w+\.lock\(\)\.unwrap\(\)'          # a blocking acquisition of the (privately named) mutex field
 _inner = re.search(r'impl NetDriverContext \{.*?\bpub fn inner\s*\([^)]*\)[^{]*\{(.*?)\n    \}', tj, re.S)
-_inner_ok = bool(_inner) and _inner.group(1).count('self.detail.lock().unwrap()') == 1 and 'try_lock' not in _inner.group(1)
+_inner_ok = bool(_inner) and len(re.findall(_LOCK, _inner.group(1))) == 1 and 'try_lock' not in _inner.group(1)
 for acc in ('is_rx_timeout', 'rx_mark', 'set_tx_last_message', 'set_rx_last_message', 'tx_last_message', 'rx_last_message', 'rx_count'):
     m = re.search(r'impl NetDriverContext \{.*?\bpub fn %s\s*\([^)]*\)[^{]*\{(.*?)\n    \}' % acc, tj, re.S)
     body = m.group(1) if m else ''
     # exactly one critical section that waits for the lock: lock().unwrap() directly, or through inner() (pinned above)
-    nlocks = body.count('self.detail.lock().unwrap()') + (body.count('self.inner()') if _inner_ok else 0)
-    if not m or nlocks != 1 or 'try_lock' in body or '.lock()' in body.replace('self.detail.lock().unwrap()', ''):
+    nlocks = len(re.findall(_LOCK, body)) + (body.count('self.inner()') if _inner_ok else 0)
+    if not m or nlocks != 1 or 'try_lock' in body or '.lock()' in re.sub(_LOCK, '', body):
         errors.append('runtime/j1939.rs NetDriverContext::%s is no longer a single lock().unwrap() access' % acc)
 defs.append(('ctx_accessors_single_locked_access', 'bool', 'false' if any('NetDriverContext::' in e for e in errors) else 'true', 'runtime/j1939.rs: every NetDriverContext accessor is one self.detail.lock().unwrap() critical section'))
 
